@@ -99,7 +99,13 @@ def tv_unit(name, gen, args, stdin_text, spec_fn, opts):
     for pmsg in problems:
         res['queries'].append(dict(name=pmsg, result='sat', expect='unsat', time=0.0, backend='check', size=None))
         res['cex'] = dict(obligation=pmsg, case=dict(kind='gen', generator=gen, args=args, stdin=stdin_text, what=pmsg, text=out[:400]))
-    q, model = decide_equiv('emitted formula <=> specification, for every assignment of the %d variables' % len(names), emitted, spec, timeout_s=opts.get('timeout', 250))
+    if opts.get('direction') == 'sound':
+        # only "every model of the emitted formula satisfies the specification" (the converse needs pigeonhole-style
+        # reasoning that the solver does not finish at this size)
+        q, model = decide_equiv('emitted formula => specification (every model is a solution), for every assignment of the %d variables' % len(names), z3.And(emitted, z3.Not(spec)), z3.BoolVal(False),
+                                timeout_s=opts.get('timeout', 250))
+    else:
+        q, model = decide_equiv('emitted formula <=> specification, for every assignment of the %d variables' % len(names), emitted, spec, timeout_s=opts.get('timeout', 250))
     res['queries'].append(q)
     if q['result'] == 'sat':
         asg = {n: bool(model.get('x_' + n, False)) for n in names}
